@@ -70,7 +70,12 @@ def _gen_op(r, model):
     val = r.choice([['num', '7'], ['str', 'v'], ['list', [['num', '1']]], ['name', 'x']])
     if k == 'add':
         if is_list:
-            a = weighted(r, [('push', 4), ('insert', 3), ('set', 2), ('setop', 2), ('setnew', 1)])
+            a = weighted(r, [('push', 4), ('insert', 3), ('set', 2), ('setop', 2), ('setnew', 1), ('pushmany', 1), ('insertmany', 0.5)])
+            if a == 'pushmany':
+                # not in the language: an adder given several values must fail, never add them all behind one check
+                return ['call', 'push', [te, val, val] + ([val] if r.random() < 0.5 else []), gen.sugar(r, 3)], 'push'
+            if a == 'insertmany':
+                return ['call', 'insert', [te, ['num', '0'], val, val], gen.sugar(r, 4)], 'insert'
             if a == 'push':
                 return ['call', 'push', [te, val], gen.sugar(r, 2)], 'push'
             if a == 'insert':
